@@ -296,6 +296,15 @@ def lineno_parts(rep, root, repo, tier, seed):
     load_part(rep, root, {"lineno"}, which=("add_command", "from_source", "resolve_list", "cli"))
     heap_part(rep, root, ["program"], {"lineno"})
     exception_part(rep, repo, {"lineno"})
+    # the constructor: each command gets its line and a table of argument lines of its own
+    try:
+        from . import loadprops
+
+        irecs, ifns = loadprops.verify_command_init(Repo(root))
+        rep.functions += ifns
+        add_records(rep, [_strip(r) for r in irecs], None)
+    except Exception as e:
+        rep.errors.append("Command.__init__: %s: %s" % (type(e).__name__, e))
     prev_b = rep.bounded
     rep.bounded = None
     param_part(rep, "C11", tier, seed)
